@@ -40,6 +40,9 @@ func genC17(seed uint64, tier string) *Tape {
 	t.Cfg["senders"] = int64(1 + rng.IntN(8))
 	t.Cfg["interval_ms"] = int64([]int{10, 100, 100, 250}[rng.IntN(4)])
 	t.Cfg["ttl"] = int64(rng.IntN(4))
+	// swarm knob: one in `parksign` signing calls is held while the next snapshot
+	// arrives, so that two batchers are inside doSign at once (0 = never)
+	t.Cfg["parksign"] = int64([]int{0, 0, 2, 3, 6}[rng.IntN(5)])
 	n := 20 + rng.IntN(60)
 	if tier == "thorough" {
 		n = 60 + rng.IntN(300)
@@ -123,6 +126,67 @@ func (c *c17Collector) Subscribe(id int, ch <-chan *gossip.Message) {
 	}()
 }
 
+// parkSigner is a sign.Signer that can hold one Sign call while the next
+// stimulus is delivered, which is how two batchers are brought inside doSign at
+// the same time deterministically: a seeded subset of calls parks on entry; the
+// driver releases the parked call after the following stimulus has been fully
+// processed (so at most one call is parked, no simulated time passes while it
+// is, and every step still has a single runnable chain). A signing input that
+// changes while its call is parked is reported; the signature that results is
+// checked by the collector like any other.
+type parkSigner struct {
+	inner  sign.Signer
+	seed   uint64
+	rate   int64
+	mu     sync.Mutex
+	n      uint64
+	parked chan struct{}
+	col    *c17Collector
+	r      *Run
+}
+
+func (s *parkSigner) Sign(msg []byte) ([]byte, error) {
+	s.mu.Lock()
+	s.n++
+	k := s.n
+	var ch chan struct{}
+	if s.parked == nil && subRng(s.seed, k, "parksign").Int64N(s.rate) == 0 {
+		ch = make(chan struct{})
+		s.parked = ch
+	}
+	s.mu.Unlock()
+	if ch != nil {
+		before := append([]byte{}, msg...)
+		<-ch
+		s.r.Count("fault.sign_call_overlapped")
+		if !bytes.Equal(before, msg) {
+			s.col.mu.Lock()
+			s.col.bad = append(s.col.bad, fmt.Sprintf("the bytes handed to the signer were overwritten by a concurrent batcher while they were being signed (signing call #%d)", k))
+			s.col.mu.Unlock()
+		}
+	}
+	return s.inner.Sign(msg)
+}
+
+func (s *parkSigner) Verify(msg, sig []byte) (bool, error) { return s.inner.Verify(msg, sig) }
+
+func (s *parkSigner) isParked() bool {
+	s.mu.Lock()
+	defer s.mu.Unlock()
+	return s.parked != nil
+}
+
+func (s *parkSigner) release() {
+	s.mu.Lock()
+	ch := s.parked
+	s.parked = nil
+	s.mu.Unlock()
+	if ch != nil {
+		close(ch)
+		synctest.Wait()
+	}
+}
+
 func mkSnapshot(v uint64) *protocol.Snapshot {
 	return &protocol.Snapshot{Version: v, EventDigest: sha([]byte(fmt.Sprintf("e%d", v))),
 		HistoryDigest: sha([]byte(fmt.Sprintf("h%d", v))), HyperDigest: sha([]byte(fmt.Sprintf("y%d", v)))}
@@ -150,7 +214,18 @@ func execC17(r *Run) {
 	if iv <= 0 {
 		iv = 100 * time.Millisecond
 	}
-	snd := server.NewSenderWithLogger(agent, sg, bsz, int(r.Cfg("ttl")), ns, lg)
+	var sndSigner sign.Signer = sg
+	var ps *parkSigner
+	if rate := r.Cfg("parksign"); rate > 0 {
+		ps = &parkSigner{inner: sg, seed: r.Tape.Seed, rate: rate, col: col, r: r}
+		sndSigner = ps
+	}
+	release := func() {
+		if ps != nil {
+			ps.release()
+		}
+	}
+	snd := server.NewSenderWithLogger(agent, sndSigner, bsz, int(r.Cfg("ttl")), ns, lg)
 	snd.Interval = iv
 	ch := make(chan *protocol.Snapshot, 1<<12)
 	snd.Start(ch)
@@ -161,13 +236,18 @@ func execC17(r *Run) {
 		switch s.Op {
 		case "feed":
 			for j := 0; j < s.K; j++ {
+				held := ps != nil && ps.isParked()
 				ch <- mkSnapshot(fed)
 				fed++
 				synctest.Wait() // one stimulus, then quiescence
+				if held {
+					release() // the call parked before this stimulus has now overlapped it
+				}
 				r.Tick(1, 0)
 			}
 			r.Count("stimulus.feed")
 		case "sleep":
+			release() // no simulated time passes while a signing call is held
 			time.Sleep(time.Duration(s.X) * time.Millisecond)
 			synctest.Wait()
 			r.Tick(1, s.X)
@@ -176,6 +256,7 @@ func execC17(r *Run) {
 	}
 	r.cur = len(r.Tape.Steps)
 	// arrivals stop; the sender keeps running: everything must be out within two intervals
+	release()
 	time.Sleep(2 * iv)
 	synctest.Wait()
 	r.Tick(1, int64(2*iv/time.Millisecond))
